@@ -66,6 +66,10 @@ EXPLANATION += (
     ' Round 8: every alternative of the recorded module path is relative to the package (R-MUST/module-relative).'
 )
 
+EXPLANATION += (
+    ' Round 9: a string with a path interpolated into it is only ever a raised or logged message (R-ROLE/path-in-message/message-only).'
+)
+
 RULE_TEXT = (
     "one obligation per emitted value (config, log, log file, module), "
     "per removed key, per path interpolation site")
